@@ -270,7 +270,7 @@ class DataHeader(BitsInterface, BytesInterface):
     def from_bits(bits: bitarray) -> "DataHeader":
         dpf: DataPacketFormats = DataPacketFormats.from_bits(bits[4:8])
         if dpf == DataPacketFormats.DataPacketConfirmed:
-            return DataHeader(
+            header = DataHeader(
                 dpf=dpf,
                 crc=bits[80:96],
                 is_group=bits[0],
@@ -287,7 +287,7 @@ class DataHeader(BitsInterface, BytesInterface):
             )
         elif dpf == DataPacketFormats.ResponsePacket:
             # first four bits of C_RHEAD are reserved (as_bits writes 0000), there is no A bit to read
-            return DataHeader(
+            header = DataHeader(
                 dpf=dpf,
                 crc=bits[80:96],
                 sap_identifier=SAPIdentifier.from_bits(bits[8:12]),
@@ -300,7 +300,7 @@ class DataHeader(BitsInterface, BytesInterface):
                 response_status=ba2int(bits[77:80]),
             )
         elif dpf == DataPacketFormats.ShortDataDefined:
-            return DataHeader(
+            header = DataHeader(
                 dpf=dpf,
                 crc=bits[80:96],
                 is_group=bits[0],
@@ -315,7 +315,7 @@ class DataHeader(BitsInterface, BytesInterface):
                 bit_padding=bits[72:80],
             )
         elif dpf == DataPacketFormats.DataPacketUnconfirmed:
-            return DataHeader(
+            header = DataHeader(
                 dpf=dpf,
                 crc=bits[80:96],
                 is_group=bits[0],
@@ -329,7 +329,7 @@ class DataHeader(BitsInterface, BytesInterface):
                 fragment_sequence_number=ba2int(bits[76:80]),
             )
         elif dpf == DataPacketFormats.UnifiedDataTransport:
-            return DataHeader(
+            header = DataHeader(
                 dpf=dpf,
                 crc=bits[80:96],
                 is_group=bits[0],
@@ -349,3 +349,11 @@ class DataHeader(BitsInterface, BytesInterface):
             raise NotImplementedError(
                 f"from_bits not implemented for {dpf} (val {bits[4:8]})"
             )
+
+        if bits[80:96].any():
+            # a received CRC is checked on the received bits, not on re-serialised fields
+            # (undefined SAP / format values are folded and reserved bits are dropped by the constructor)
+            header.crc_ok = CRC16.check(
+                bits[:80].tobytes(), ba2int(bits[80:96]), CrcMasks.DataHeader
+            )
+        return header
